@@ -376,6 +376,56 @@ void harness(void)
       }
     }
   }
+#elif defined(K_PUSHV)
+  {
+    /* C13: PUSHV/POPV (doc "PUSHV and POPV"): named value stacks.  POPV gives the symbol the value most recently pushed on
+       that stack and not yet popped; stacks of different names are independent; POPV on an empty/unknown stack is an
+       error and changes nothing.  NEV events from {PUSHV stk,sym; POPV stk,sym; SET sym} over stacks A,B and symbols L,F. */
+    static char nA[2] = "A", nB[2] = "B"; static tStrComp cA, cB;
+    LargeInt cur[2], stk[2][NEV]; int sp[2] = {0, 0};
+    cA.str.p_str = nA; cB.str.p_str = nB; FirstStack = NULL; PassNo = 1;
+    for (s = 0; s < 2; s++) { EnterIntSymbolWithFlags(s ? &cF : &cL, in_prev_val[s], SegNone, True, eSymbolFlag_None); cur[s] = in_prev_val[s]; }
+    CHECK(diag_cnt == 0, "defining the variables raises nothing");
+    for (i = 0; i < NEV; i++)
+    {
+      int k = in_ev_kind[i], st = in_maychange[i] & 1; Boolean ok;
+      ASSUME(k <= 2);
+      s = (in_maychange[i] >> 1) & 1;
+      diag_reset();
+      if (k == 0)
+      {
+        ok = PushSymbol(s ? &cF : &cL, st ? &cB : &cA);
+        CHECK(ok && diag_cnt == 0, "PUSHV of a defined symbol succeeds");
+        stk[st][sp[st]++] = cur[s];
+      }
+      else if (k == 1)
+      {
+        ok = PopSymbol(s ? &cF : &cL, st ? &cB : &cA);
+        if (sp[st] == 0) CHECK(!ok && diag_errs == 1, "POPV from an empty or unknown stack is an error");
+        else
+        {
+          CHECK(ok && diag_cnt == 0, "POPV from a stack that holds a value succeeds");
+          cur[s] = stk[st][--sp[st]];
+          if (sp[st] == 0 && sp[!st] > 0) WITNESS("stack emptied while the other one holds values");
+        }
+      }
+      else
+      {
+        EnterIntSymbolWithFlags(s ? &cF : &cL, in_ev_val[i], SegNone, True, eSymbolFlag_None);
+        CHECK(diag_cnt == 0, "SET of a variable raises nothing");
+        cur[s] = in_ev_val[i];
+      }
+      {
+        TempResult v; int q;
+        for (q = 0; q < 2; q++)
+        {
+          as_tempres_ini(&v);
+          LookupSymbol(q ? &cF : &cL, &v, False, TempInt);
+          CHECK(v.Typ == TempInt && v.Contents.Int == cur[q], "after PUSHV/POPV/SET every variable holds its own last set or restored value");
+        }
+      }
+    }
+  }
 #elif defined(K_XREF)
   {
     /* C17: the cross-reference option (-C) must not influence assembly.  With MakeCrossList on, every look-up records a
